@@ -275,6 +275,13 @@ impl RADAU {
         }
         h = h.clamp(-hmax, hmax);
 
+        // The first step may already reach xend
+        let mut last = false;
+        if (x + h * 1.0001 - xend) * posneg >= 0.0 {
+            h = xend - x;
+            last = true;
+        }
+
         // --- Declarations ---
 
         // Workspace
@@ -308,7 +315,6 @@ impl RADAU {
         let mut hold = h;
         let mut hnew: Float;
         let mut hhfac: Float = h;
-        let mut last = false;
         let mut reject = false;
         let mut h_acc: Float = 0.0;
         let mut err_acc: Float = 0.0;
